@@ -3,6 +3,7 @@ import os
 from .. import common as C, structs as S, valgen as V, refcodec as R
 
 LEAN_MODULES = ["ZvtVerif.Properties.C02"]
+TRANSLATED = {"structs"}      # translated tables this property consumes (a translator problem elsewhere does not break its tie)
 NEEDS_RELEASE = True
 ASSUMPTIONS = ["dev profile has overflow checks on, release profile off; both must answer identically",
                "allocation watchdog: bytes allocated by zvt_deserialize/zvt_parse alone <= 64 x input + 16 KiB (calibrated; the worst shipped case, zero-length `60 00` elements, needs 48 x)"]
